@@ -535,6 +535,7 @@ async fn world_body<const S: usize>(case: HybridCase, interceptor: Option<DynStr
     join_all(futs).await;
 }
 
+#[cfg(not(feature = "shuttle"))]
 fn run_s<const S: usize>(case: &HybridCase, interceptor: Option<DynStreamInterceptor>) -> HybridRun {
     let slots: Slots = Arc::new(Mutex::new(vec![None; S * 3]));
     let _ = verif_obs::drain();
@@ -571,6 +572,7 @@ fn run_s<const S: usize>(case: &HybridCase, interceptor: Option<DynStreamInterce
     }
 }
 
+#[cfg(not(feature = "shuttle"))]
 pub fn run_hybrid(case: &HybridCase, interceptor: Option<DynStreamInterceptor>) -> HybridRun {
     let run = run_hybrid_once(case, interceptor.clone());
     if run.wall_timeout {
@@ -583,6 +585,7 @@ pub fn run_hybrid(case: &HybridCase, interceptor: Option<DynStreamInterceptor>) 
     run
 }
 
+#[cfg(not(feature = "shuttle"))]
 fn run_hybrid_once(case: &HybridCase, interceptor: Option<DynStreamInterceptor>) -> HybridRun {
     assert_eq!(case.reports.len(), case.assign.len());
     match case.shards {
@@ -592,4 +595,55 @@ fn run_hybrid_once(case: &HybridCase, interceptor: Option<DynStreamInterceptor>)
         5 => run_s::<5>(case, interceptor),
         n => panic!("unsupported shard count {n}"),
     }
+}
+
+// ---- shuttle executor (build b2): the same world under shuttle's random / PCT schedulers ----------------------
+
+#[cfg(feature = "shuttle")]
+fn shuttle_exec<const S: usize>(case: &HybridCase, runs: &Arc<Mutex<Vec<HybridRun>>>) {
+    let slots: Slots = Arc::new(Mutex::new(vec![None; S * 3]));
+    let _ = verif_obs::drain();
+    verif_obs::enable(true, false);
+    crate::shuttle::future::block_on(world_body::<S>(case.clone(), None, Arc::clone(&slots)));
+    let events = verif_obs::drain();
+    verif_obs::enable(false, false);
+    let got = slots.lock().unwrap().clone();
+    let outs = (0..S).map(|s| std::array::from_fn(|r| got[s * 3 + r].clone().unwrap_or(HelperOut::NoOutput))).collect();
+    runs.lock().unwrap().push(HybridRun {
+        outs,
+        quiescent: false,
+        wall_timeout: false,
+        stages: events
+            .into_iter()
+            .filter(|e| e.kind.starts_with("hybrid:"))
+            .map(|e| StageEv { kind: e.kind.to_string(), role: e.a, shard: e.b, n: e.c })
+            .collect(),
+    });
+}
+
+/// Runs `case` under `iterations` shuttle schedules (random, or PCT with depth 3). Returns the observed runs, or
+/// Err(panic text) when shuttle itself failed the execution (deadlock report, panic outside the helper futures).
+#[cfg(feature = "shuttle")]
+pub fn run_hybrid_shuttle(case: &HybridCase, iterations: usize, pct: bool) -> Result<Vec<HybridRun>, String> {
+    let runs: Arc<Mutex<Vec<HybridRun>>> = Arc::new(Mutex::new(Vec::new()));
+    let r2 = Arc::clone(&runs);
+    let c = case.clone();
+    let f = move || match c.shards {
+        1 => shuttle_exec::<1>(&c, &r2),
+        2 => shuttle_exec::<2>(&c, &r2),
+        _ => shuttle_exec::<3>(&c, &r2),
+    };
+    let res = vlib::catch(move || {
+        // the hybrid protocol's futures are far larger than shuttle's default 32 KiB continuation stacks
+        let mut config = crate::shuttle::Config::new();
+        config.stack_size = 64 * 1024 * 1024;
+        if pct {
+            crate::shuttle::Runner::new(crate::shuttle::scheduler::PctScheduler::new(3, iterations), config).run(f);
+        } else {
+            crate::shuttle::Runner::new(crate::shuttle::scheduler::RandomScheduler::new(iterations), config).run(f);
+        }
+    });
+    verif_obs::enable(false, false);
+    res?;
+    Ok(std::mem::take(&mut *runs.lock().unwrap()))
 }
